@@ -11,7 +11,7 @@ import (
 )
 
 func checkC17(c *Ctx) {
-	c.explainf("C17 decides: every write route funnels through HashSet (the bucket map is written only by HashSet / HashDelete / CloneFrom / MakeHash); in HashSet the field type check dominates every mutation and, on an error other than the not-a-symbol sentinel, the routine returns that error before any mutation; in the checker an unknown field name and a type mismatch (apart from the empty-slice exception) reach an error return; MakeHash type-checks the whole record of a declared struct and returns the error; writing through a pointer copies a record only under the type-identity test; re-binding a typed variable stores only under an acceptance test and otherwise ends in an error. It does not decide that the type comparison is right for every field type, nor redefinition semantics.")
+	c.explainf("C17 decides: every write route funnels through HashSet (the bucket map is written only by HashSet / HashDelete / CloneFrom / MakeHash); in HashSet the field type check dominates every mutation and, on an error other than the not-a-symbol sentinel, the routine returns that error before any mutation; in the checker an unknown field name and a type mismatch (apart from the empty-slice exception) reach an error return; MakeHash type-checks the whole record of a declared struct and returns the error; writing through a pointer copies a record only under the type-identity test; re-binding a typed variable stores only under an acceptance test and otherwise ends in an error. The routine that reports the type of an instance and the routine that builds an instance are examined for look-ups of the definition by name in the package-level registry (C17-IDENT). It does not decide that the type comparison is right for every field type, nor redefinition semantics.")
 	c.checkDefinitionByName("C17-IDENT")
 	Map := c.mustField("C17-WM", "SexpHash", "Map")
 	KeyOrder := c.field("SexpHash", "KeyOrder")
